@@ -13,8 +13,8 @@ ASSUMPTIONS = ["reference BIP32 in vf/ref/bip32.py, self-tested on BIP32 test ve
 NSHARDS = {"quick": 32, "thorough": 64}
 BUDGET_S = {"quick": 200, "thorough": 1800}
 MIN_HITS = {
-    'quick': {"chain": 502, "step_hardened": 371, "step_normal": 405, "step_path": 530, "pub_derive": 760, "pub_hardened_refused": 244, "corrupt": 6528, "odd_seed": 103},
-    'thorough': {"chain": 23049, "step_hardened": 17694, "step_normal": 22686, "step_path": 26070, "pub_derive": 36252, "pub_hardened_refused": 10393, "corrupt": 920678, "odd_seed": 6936, "depth255": 9},
+    'quick': {"chain": 502, "step_hardened": 371, "step_normal": 405, "step_path": 530, "pub_derive": 760, "pub_hardened_refused": 244, "corrupt": 6912, "odd_seed": 103},
+    'thorough': {"chain": 160636, "step_hardened": 119146, "step_normal": 152756, "step_path": 181197, "pub_derive": 261349, "pub_hardened_refused": 81682, "corrupt": 3455078, "odd_seed": 38329, "depth255": 124},
 }
 IDX = [0, 1, 2, 2**31 - 2, 2**31 - 1, 2**31, 2**31 + 1, 2**32 - 1]
 
@@ -140,6 +140,9 @@ def cases(ctx):
                 b[bit // 8] ^= 1 << (bit % 8)
                 region = "version" if bit < 32 else "checksum" if bit >= 78 * 8 else "key" if bit >= 45 * 8 else "chain code" if bit >= 13 * 8 else "depth/fingerprint/index"
                 yield {"k": "corrupt", "kind": kind, "s": base58.encode(bytes(b)), "what": "bit flipped in %s" % region}
+            for tail in (b"\x00", b"\x01", gen.rbytes(r, 4), raw[-4:], gen.rbytes(r, 33)):
+                yield {"k": "corrupt", "kind": kind, "s": base58.encode(raw + tail), "what": "bytes appended behind the checksum"}
+            yield {"k": "corrupt", "kind": kind, "s": base58.encode(raw[:78] + gen.rbytes(r, 3) + raw[78:]), "what": "bytes inserted in front of the checksum"}
             yield {"k": "corrupt", "kind": kind, "s": s[:-1], "what": "last character dropped"}
             yield {"k": "corrupt", "kind": kind, "s": s + "1", "what": "character appended"}
 
